@@ -694,11 +694,7 @@ class _SetOperation(Selectable, Term):
         if self._orderbys:
             querystring += self._orderby_sql(**kwargs)
 
-        if self._limit is not None:
-            querystring += self._limit_sql()
-
-        if self._offset:
-            querystring += self._offset_sql()
+        querystring = self._apply_pagination(querystring, **kwargs)
 
         if subquery:
             querystring = "({query})".format(query=querystring, **kwargs)
@@ -732,11 +728,13 @@ class _SetOperation(Selectable, Term):
 
         return " ORDER BY {orderby}".format(orderby=",".join(clauses))
 
-    def _offset_sql(self) -> str:
-        return " OFFSET {offset}".format(offset=self._offset)
-
-    def _limit_sql(self) -> str:
-        return " LIMIT {limit}".format(limit=self._limit)
+    def _apply_pagination(self, querystring: str, **kwargs: Any) -> str:
+        # The limit/offset of a set operation is written in the pagination syntax of the base query's dialect
+        # (e.g. OFFSET .. ROWS FETCH NEXT .. ROWS ONLY for Oracle and MSSQL), not always as LIMIT/OFFSET.
+        paginator = self.base_query.QUERY_CLS._builder()
+        paginator._limit = self._limit
+        paginator._offset = self._offset
+        return paginator._apply_pagination(querystring, **kwargs)
 
 
 class QueryBuilder(Selectable, Term):
